@@ -74,16 +74,15 @@ def tail(s, n=2500):
 
 
 def ms_term(S, ms):
-    """REAL RemoteMethodSchema -> Coq mschema term (reads argumentNames / argConstraints / required)"""
+    """REAL RemoteMethodSchema -> Coq mschema term (reads argumentNames / argConstraints / required; an argument is
+    optional iff it is not in `required`; what is enforced on its value is the constraint an Optional wraps)"""
     from foolscap.constraint import Optional
     rows = []
     for n in ms.argumentNames:
         c = ms.argConstraints[n]
-        opt = isinstance(c, Optional)
-        if opt:
+        if isinstance(c, Optional):
             c = c.constraint
-        assert opt == (n not in ms.required)
-        rows.append("(%d, %s, %s)" % (NAMES.index(n) + 1, S.to_ctr(c), "true" if opt else "false"))
+        rows.append("(%d, %s, %s)" % (NAMES.index(n) + 1, S.to_ctr(c), "false" if n in ms.required else "true"))
     return "(mk [%s])" % "; ".join(rows)
 
 
@@ -121,13 +120,13 @@ def run(ctx):
 
 
 # ---------------------------------------------------------------------------------------------------------------
-def one_call(S, E, argspec, args_vs, kwargs_vs, vocab=0):
+def one_call(S, E, argspec, args_vs, kwargs_vs, vocab=0, direct=False):
     """argspec: [(name, cs, optional?)]; -> dict(sender_ok, outcome, delivered, ms term, region set)"""
     cons = []
     for n, cs, opt in argspec:
         c = S.build(cs)
         cons.append(S.schema.Optional(c, None) if opt else c)
-    w = S.World([n for n, _, _ in argspec], cons, None, vocab=vocab)
+    w = S.World([n for n, _, _ in argspec], cons, None, vocab=vocab, direct=direct)
     memo = {}
     args = tuple(S.to_py(v, memo) for v in args_vs)
     kwargs = {n: S.to_py(v, memo) for n, v in kwargs_vs}
@@ -238,12 +237,15 @@ def oracle(ctx, S, E):
     cases = []
     rng = ctx.rng
 
-    def do(tag, argspec, args_vs, kwargs_vs, vocab=None):
+    def do(tag, argspec, args_vs, kwargs_vs, vocab=None, direct=None):
         if vocab is None:
             vocab = ctx.rng.choice([0, 1, 1])          # both initial vocab tables a negotiated connection can have
+        if direct is None:
+            direct = ctx.rng.random() < 0.4            # both public ways of declaring the method schema
         ctx.hist("vocab_table", vocab)
+        ctx.hist("schema_declared_by", "RemoteMethodSchema(**kwargs)" if direct else "prototype function")
         try:
-            r = one_call(S, E, argspec, args_vs, kwargs_vs, vocab)
+            r = one_call(S, E, argspec, args_vs, kwargs_vs, vocab, direct)
         except Exception as e:
             import traceback
             ctx.fail("oracle/implementation-raised", "building the schema or calling through it raised %s: %r; case %s"
@@ -292,6 +294,18 @@ def oracle(ctx, S, E):
                     continue
                 ch = ["choice", [ca, cb]]
                 do("choice-order", [("a", ch, False), ("b", ["list", ch, None, 0], True)], [v], [["b", ["l", [v, v]]]], 1)
+    # Optional arguments of every container / leaf kind, given and omitted, by position and by keyword, with the method
+    # schema declared through BOTH constructor paths
+    for kind in S.CONTAINER_KINDS + ["text", "bool", "none", "int"]:
+        x = S.gen_container_cs(rng, kind) if kind in S.CONTAINER_KINDS else {"text": ["py", "str"], "bool": ["py", "bool"],
+                                                                               "none": ["none"], "int": ["int", -1]}[kind]
+        v = S.gen_value(x, rng)
+        for direct in (False, True):
+            spec = [("a", ["py", "int"], False), ("b", x, True)]
+            do("optional-arg", spec, [["i", 1], v], [], None, direct)
+            do("optional-arg", spec, [["i", 1]], [["b", v]], None, direct)
+            do("optional-arg", spec, [["i", 1]], [], None, direct)
+            do("optional-arg", [("a", x, True)], [], [["a", v]], None, direct)
     # one container object occurring twice in a call, under every container constraint kind
     for i in range(ctx.n(160, 1500)):
         g = S.gen_shared_call(rng)
